@@ -1,4 +1,4 @@
-package main
+package c15lib
 
 import (
 	"context"
@@ -129,12 +129,9 @@ func (f *recFilter) Reset() {
 // every client (told apart by the DSCP value in the SCION header) arrives at.
 type peer struct {
 	mu    sync.Mutex
-	ip    net.IP // 4-byte form
+	ip    net.IP // 16-byte form (net.IPv4), as net.ParseIP gives it
 	socks []*net.UDPConn
 	ports []int
-	// the same on the IPv6 loopback address, for histories with NTS clients (see runHist); nil if there is none
-	ip6    net.IP
-	ports6 []int
 	// per round
 	modes [][]int64          // per client: behaviour per request (0 conformant, 1 basic reply, 2 rejected reply)
 	nreq  []int              // per client: requests seen this round
@@ -156,7 +153,7 @@ func ownAddr() net.IP {
 }
 
 func newPeer() *peer {
-	p := &peer{ip: ownAddr().To4()}
+	p := &peer{ip: ownAddr()}
 	for k := 0; k < maxPaths; k++ {
 		c, err := net.ListenUDP("udp4", &net.UDPAddr{IP: p.ip, Port: 0})
 		if err != nil {
@@ -164,16 +161,6 @@ func newPeer() *peer {
 		}
 		p.socks = append(p.socks, c)
 		p.ports = append(p.ports, c.LocalAddr().(*net.UDPAddr).Port)
-		go p.serve(k, c)
-	}
-	for k := 0; k < maxPaths; k++ {
-		c, err := net.ListenUDP("udp6", &net.UDPAddr{IP: net.IPv6loopback, Port: 0})
-		if err != nil {
-			p.ports6 = nil
-			break
-		}
-		p.ip6 = net.IPv6loopback
-		p.ports6 = append(p.ports6, c.LocalAddr().(*net.UDPAddr).Port)
 		go p.serve(k, c)
 	}
 	return p
@@ -205,10 +192,7 @@ func selfSigned() tls.Certificate {
 // startKE starts the peer's NTS key exchange server (TLS over TCP): every exchange gets eight cookies that
 // name the session, and the address and port the NTP requests are addressed to.
 func (p *peer) startKE() {
-	if p.ports6 == nil {
-		return
-	}
-	ln, err := tls.Listen("tcp6", (&net.TCPAddr{IP: p.ip6, Port: 0}).String(), &tls.Config{
+	ln, err := tls.Listen("tcp4", (&net.TCPAddr{IP: p.ip, Port: 0}).String(), &tls.Config{
 		Certificates: []tls.Certificate{selfSigned()}, MinVersion: tls.VersionTLS13, NextProtos: []string{"ntske/1"},
 		Rand: realReader})
 	if err != nil {
@@ -252,7 +236,7 @@ func (p *peer) startKE() {
 					realReader.Read(ck[8:])
 					msg.AddRecord(ntske.Cookie{Cookie: ck})
 				}
-				msg.AddRecord(ntske.Server{Addr: []byte(p.ip6.String())})
+				msg.AddRecord(ntske.Server{Addr: []byte(p.ip.String())})
 				msg.AddRecord(ntske.Port{Port: uint16(serverPort)})
 				msg.AddRecord(ntske.End{})
 				buf, err := msg.Pack()
@@ -527,14 +511,11 @@ const roundTimeout = 10 * time.Second
 // history with NTS clients, where the server must be in another AS than the client)
 func iaOf(n int64) addr.IA { return addr.MustIAFrom(1, addr.AS(0xff0000000200+uint64(n))) }
 
-func mkPathTo(dst addr.IA, k int, fp int64, v6 bool) snet.Path {
+func mkPathTo(dst addr.IA, k int, fp int64) snet.Path {
 	p := spath.Path{
 		Src: ia, Dst: dst,
 		DataplanePath: spath.Empty{},
 		NextHop:       &net.UDPAddr{IP: thePeer.ip, Port: thePeer.ports[k]},
-	}
-	if v6 {
-		p.NextHop = &net.UDPAddr{IP: thePeer.ip6, Port: thePeer.ports6[k]}
 	}
 	if fp != 0 {
 		p.Meta = snet.PathMetadata{Interfaces: []snet.PathInterface{{ID: iface.ID(fp), IA: ia}, {ID: iface.ID(1000 + fp), IA: ia}}}
@@ -542,10 +523,11 @@ func mkPathTo(dst addr.IA, k int, fp int64, v6 bool) snet.Path {
 	return p
 }
 
-func mkPath(k int, fp int64) snet.Path { return mkPathTo(ia, k, fp, false) }
+func mkPath(k int, fp int64) snet.Path { return mkPathTo(ia, k, fp) }
 
 func setupHist() {
 	timebase.RegisterClock(sysClock{})
+	installTape()
 	thePeer = newPeer()
 	thePeer.startKE()
 	fpIDs = map[string]int64{}
@@ -566,11 +548,7 @@ func sockOf(p snet.Path) int64 {
 	if nh == nil {
 		return -1
 	}
-	ports := thePeer.ports
-	if nh.IP.To4() == nil {
-		ports = thePeer.ports6
-	}
-	for k, port := range ports {
+	for k, port := range thePeer.ports {
 		if port == nh.Port {
 			return int64(k)
 		}
@@ -683,7 +661,7 @@ func runHist(tags string, h *histIn) {
 		if h.cfg[i].nts {
 			c.Auth.NTSEnabled = true
 			c.Auth.NTSKEFetcher.Log = quiet
-			c.Auth.NTSKEFetcher.TLSConfig = tls.Config{InsecureSkipVerify: true, ServerName: thePeer.ip6.String(),
+			c.Auth.NTSKEFetcher.TLSConfig = tls.Config{InsecureSkipVerify: true, ServerName: thePeer.ip.String(),
 				MinVersion: tls.VersionTLS13, Rand: realReader}
 			c.Auth.NTSKEFetcher.Port = fmt.Sprint(thePeer.kePort)
 		}
@@ -697,18 +675,12 @@ func runHist(tags string, h *histIn) {
 	} else if h.anyNTS() {
 		dstIA = iaOf(0)
 	}
-	// All clients of a round share remoteAddr.Host, and every exchange writes it: Host.IP = Host.IP.To4() if
-	// that is not nil, and, with NTS, Host.IP = net.ParseIP(<server named by the key exchange>) before
-	// (client_scion.go).  With an IPv4 server the slice header then alternates between the 16-byte and the
-	// 4-byte form while other clients read it (a data race: a torn read gives 0.0.0.0, the reply is dropped as
-	// coming from an unexpected source and the client waits for its deadline).  The harness keeps these writes
-	// idempotent: the IPv4 address is handed over in 4-byte form, and histories with NTS clients run on the IPv6
-	// loopback address, where To4 is nil and ParseIP always yields the same bytes.
-	v6 := h.anyNTS()
+	// All clients of a round (and all rounds of a history) share remoteAddr.Host; the server address is handed
+	// over in 16-byte form, and an NTS client replaces it by net.ParseIP(<server named by the key exchange>):
+	// each client has to work on its own copy (097c4ec of /repo; before, a torn read of the shared slice header
+	// sent a request to 0.0.0.0 and the round blocked until its deadline - the race detector run c15race
+	// watches this).
 	hostIP := thePeer.ip
-	if v6 {
-		hostIP = thePeer.ip6
-	}
 	laddr := udp.UDPAddr{IA: ia, Host: &net.UDPAddr{IP: hostIP, Port: 0}}
 	raddr := udp.UDPAddr{IA: dstIA, Host: &net.UDPAddr{IP: hostIP, Port: serverPort}}
 	var pather *scion.Pather
@@ -759,7 +731,7 @@ func runHist(tags string, h *histIn) {
 						continue
 					}
 					for _, f := range a.fps {
-						fd.answers[iaOf(a.ia)] = append(fd.answers[iaOf(a.ia)], mkPathTo(iaOf(a.ia), k, f, v6))
+						fd.answers[iaOf(a.ia)] = append(fd.answers[iaOf(a.ia)], mkPathTo(iaOf(a.ia), k, f))
 						k++
 					}
 				}
@@ -802,7 +774,7 @@ func runHist(tags string, h *histIn) {
 		} else {
 			ps = make([]snet.Path, len(r.fps))
 			for k, f := range r.fps {
-				ps[k] = mkPathTo(dstIA, k, f, v6)
+				ps[k] = mkPathTo(dstIA, k, f)
 			}
 			ofps = r.fps
 		}
